@@ -64,11 +64,15 @@ WaitRet(rep) ==
     /\ must' = {}
     /\ UNCHANGED started
 
-\* end of run. dl = threads blocked for ever, listener = thread id of the listener
-End(outcome, dl, listener) ==
+\* end of run. dl = threads blocked for ever, listener = thread id of the listener, left = what a
+\* final drain (after everybody has finished or is blocked for ever) still finds in the event state
+End(outcome, dl, listener, left) ==
     /\ outcome \in {"completed", "deadlock"}
     /\ outcome = "deadlock" =>
           /\ dl = <<listener>>                                   \* only the listener may block
-          /\ \A n \in DOMAIN inst : inst[n].st = "ok" => inst[n].covered    \* NoSleep
+          /\ \A n \in DOMAIN inst : inst[n].st = "ok" => inst[n].covered    \* NoSleep (generous)
+          \* NoSleep (exact): every notifier has returned, so anything still recorded in the event
+          \* state belongs to a completed notification the sleeping listener will never get
+          /\ left = <<>>
     /\ UNCHANGED evars
 =============================================================================
